@@ -256,6 +256,34 @@ def correspondence(rep, ctx):
         rep.case(("explicit-array",))
         if list(tp) != list(arr) or any(not same(data["Mo-99"][k], inv.decay(arr[k], "h").activities()["Mo-99"]) for k in range(len(arr))):
             fail("decay_time_series(explicit array)", f"times {tp} / values do not follow the supplied array")
+        # user-supplied times of other array types: the series is evaluated at exactly those times (as doubles)
+        for C in (rd.Inventory, rd.InventoryHP):
+            invx = C({"Mo-99": 1000000, "Sr-90": 2000000}, "num")
+            for arr_ in (np.array([0, 1, 2, 5, 12]), np.array([0, 3, 7], dtype=np.int32), np.array([0.5, 1.25, 9.75], dtype=np.float32),
+                         np.array([2.0, 0.25, 11.5])):
+                for kind_ in ("Bq", "num", "mass_frac", "pg"):
+                    if C is rd.InventoryHP and len(arr_) > 3:
+                        continue
+                    desc = f"{C.__name__}.decay_time_series(np.array({arr_.tolist()}, dtype={arr_.dtype}), 'h', decay_units={kind_!r})"
+                    rep.case(("explicit-array", C.__name__, str(arr_.dtype), kind_))
+                    rep.dist("explicit-time-array")
+                    try:
+                        tp, data = invx.decay_time_series(arr_, "h", decay_units=kind_, npoints=77)
+                        dfx = invx.decay_time_series_pandas(arr_, "h", decay_units=kind_, npoints=77)
+                        if [float(x) for x in tp] != [float(x) for x in arr_] or [float(x) for x in dfx.index] != [float(x) for x in arr_]:
+                            fail(desc, f"times {list(tp)} are not the supplied ones")
+                            continue
+                        for k_ in range(len(arr_)):
+                            ref = readout(invx.decay(float(arr_[k_]), "h"), kind_, rd)
+                            for c_ in data:
+                                if not same(data[c_][k_], ref[c_]) or not same(dfx[c_].iloc[k_], ref[c_]):
+                                    fail(desc, f"{c_} at t={float(arr_[k_])!r}: series {data[c_][k_]!r} / frame {dfx[c_].iloc[k_]!r} vs "
+                                               f"decay(t).readout = {ref[c_]!r}")
+                                    raise StopIteration
+                    except StopIteration:
+                        pass
+                    except Exception as e:  # noqa: BLE001
+                        fail(desc, f"raised {type(e).__name__}: {e}")
         for badu in ("bq", "", "frac", "s"):
             for fn in (lambda: inv.decay_time_series(1.0, "s", decay_units=badu, npoints=2),
                        lambda: inv.plot(1.0, yunits=badu, npoints=2)):
